@@ -38,6 +38,7 @@ class RealAlg:
     def mul(self, a, b): return a * b
     def div(self, a, b): return a / b
     def neg(self, a): return -a
+    def nonzero(self, a): return a != 0
     zero = property(lambda s: z3.RealVal(0))
     one = property(lambda s: z3.RealVal(1))
     axioms = ()
@@ -95,6 +96,7 @@ class MatAlg:
             z3.ForAll([a], sm(z3.RealVal(1), a) == a), z3.ForAll([a], sm(z3.RealVal(-1), a) == ng(a)),
             z3.ForAll([a], sm(z3.RealVal(0), a) == self.Zero),
         )
+    def nonzero(self, a): return a != self.Zero        # 'some entry of the matrix cell is non-zero'
     def inst(self, name, *terms):
         """ground instance of a ring axiom (used as a proof hint instead of handing quantified AC axioms to the solver)"""
         n, f = self.named[name]; assert len(terms) == n, name
@@ -212,19 +214,25 @@ def _strip_expect(t, coef):
 
 
 class Obligation:
-    def __init__(s, name, goal, assume, nsums, kind='vc', axioms=()):
+    def __init__(s, name, goal, assume, nsums, kind='vc', axioms=(), def_ids=None):
         s.name, s.goal, s.assume, s.nsums, s.kind, s.axioms = name, goal, assume, nsums, kind, tuple(axioms)
+        s.def_ids = def_ids if def_ids is not None else set()      # ids of assumptions that are instances of spec definitions (valid at every index)
 
 
 class State:
     def __init__(s, alg):
         s.alg = alg; s.ARR = z3.ArraySort(I, alg.sort)
-        s.heap = {}; s.env = {}; s.assume = []; s.oblig = []; s.reg = SumReg(alg); s.fresh = 0; s.written = set()
+        s.heap = {}; s.env = {}; s.assume = []; s.oblig = []; s.reg = SumReg(alg); s.fresh = 0; s.written = set(); s.def_ids = set()
         s.lemma_depth = 1; s.initial = {}; s.axioms = (); s.callee_log = []
     def add_oblig(s, name, goal, kind='vc'):
         if z3.is_true(z3.simplify(goal)) if z3.is_expr(goal) else goal is True:
             s.oblig.append(Obligation(name, z3.BoolVal(True), [], 0, kind)); return
-        s.oblig.append(Obligation(name, goal, list(s.assume), len(s.reg.terms), kind, s.axioms))
+        s.oblig.append(Obligation(name, goal, list(s.assume), len(s.reg.terms), kind, s.axioms, s.def_ids))
+    def add_defs(s, formulas):
+        """instances of the spec functions' defining equations at a goal skolem: they hold at every index, so a conjunct proved for the
+        skolem may be generalised over it (see discharge)"""
+        if not hasattr(s, 'def_ids'): s.def_ids = set()
+        for f in formulas: s.assume.append(f); s.def_ids.add(f.get_id())
     def new_base(s, length, contents=None, name='h'):
         s.fresh += 1; bid = '%s#%d' % (name, s.fresh)
         s.heap[bid] = (contents if contents is not None else z3.Const(bid + '!0', s.ARR), length)
@@ -566,6 +574,24 @@ class Exec:
             r_ = self.ev(n.args[0])
             if isinstance(r_, tuple) and r_ and r_[0] == 'range': return ('rrange', r_[1], r_[2])
             raise Undecided('reversed() of a non-range')
+        if (fn in ('numpy.any', 'numpy.all') and len(n.args) == 1 and not kw) or (isinstance(n.func, ast.Attribute) and n.func.attr in ('any', 'all') and not n.args and not kw):
+            # a predicate over ALL batch cells (and, for arrays, all orders): the generic cell only bounds it from one side --
+            #   any(v): if this cell's entry is non-zero the result is True ;  all(v): if the result is True this cell's entry is non-zero
+            isfn = fn in ('numpy.any', 'numpy.all'); which = fn.split('.')[-1] if isfn else n.func.attr
+            v = self.ev(n.args[0] if isfn else n.func.value)
+            st.fresh += 1; B = z3.Bool('whole!%s%d' % (which, st.fresh))
+            if isinstance(v, BoolV): nz = lambda: [v.t]
+            elif is_scalar(v): nz = lambda: [(v.t != 0) if isinstance(v, IntV) else st.alg.nonzero(v.t)]
+            elif isinstance(v, (View, Lazy)):
+                f = st.elem(v); st.fresh += 1; q = z3.Int('j!wh%d' % st.fresh)
+                def nz():
+                    body = st.alg.nonzero(f(q))
+                    return [z3.ForAll([q], z3.Implies(z3.And(0 <= q, q < v.length), z3.Implies(body, B)))] if which == 'any' else \
+                           [z3.ForAll([q], z3.Implies(z3.And(0 <= q, q < v.length), z3.Implies(B, body)))]
+                st.assume += nz(); return BoolV(B)
+            else: raise Undecided('%s() of %s' % (which, type(v).__name__))
+            st.assume.append(z3.Implies(nz()[0], B) if which == 'any' else z3.Implies(B, nz()[0]))
+            return BoolV(B)
         if fn in ('float', 'int') and len(n.args) == 1:
             v = self.ev(n.args[0])
             if fn == 'float': return Cell(alg.of_int(v.t)) if isinstance(v, IntV) else v
@@ -939,6 +965,8 @@ class Exec:
         k = self.loopno = self.loopno + 1
         if not hasattr(self, 'loop_nodes'): self.loop_nodes = {}
         self.loop_nodes[k] = s
+        if not hasattr(self, 'loop_bounds'): self.loop_bounds = {}
+        self.loop_bounds[k] = (lo, hi, desc, var)
         is_p = (var == 'p')
         a, b = ival(lo), ival(hi)
         if is_p:
@@ -1199,7 +1227,7 @@ RLIMIT_PER_MS = 1300          # calibrated: z3 consumes about 1.2-1.3 million re
 def _check(assumptions, goal, timeout_ms, seed=0):
     """budgets are given in (nominal) milliseconds but enforced through z3's deterministic resource limit, so that verdicts do
     not depend on how busy the machine is; the wall-clock timeout (4x) is a backstop, needed because z3's non-linear procedures do not always honour rlimit"""
-    s = z3.Solver(); s.set('rlimit', int(timeout_ms * RLIMIT_PER_MS)); s.set('timeout', int(max(4000, timeout_ms * 4)))
+    s = z3.Solver(); s.set('rlimit', int(timeout_ms * RLIMIT_PER_MS)); s.set('timeout', int(max(4000, min(timeout_ms * 4, timeout_ms + 30000))))
     if seed: s.set('random_seed', seed)
     s.add(*assumptions); s.add(z3.Not(goal))
     r = s.check()
@@ -1207,6 +1235,7 @@ def _check(assumptions, goal, timeout_ms, seed=0):
 
 
 PAIR_TIMEOUT_MS = 150
+MAX_PAIR_QUERIES = 400        # per obligation conjunct: the unchanged tree needs < 150; bounds the cost of an obligation that no longer holds
 
 
 def sum_facts(ob, reg, alg, depth=1, pair_timeout_ms=None):
@@ -1246,18 +1275,43 @@ def sum_facts(ob, reg, alg, depth=1, pair_timeout_ms=None):
         except Undecided: continue
         v, _ = _check(ctx, prem, pair_timeout_ms or PAIR_TIMEOUT_MS)
         if v == 'unsat': out.append(ca == alg.zero)
+    npairs = 0
     for (a, b) in itertools.combinations(allrec, 2):
         (ca, loa, hia, fa), (cb, lob, hib, fb) = a, b
+        if npairs >= MAX_PAIR_QUERIES: break
         lin.push(); lin.add(hib - lob != hia - loa); r = lin.check(); lin.pop()
         if r != z3.unsat: continue
         rng = z3.And(loa <= w, w <= hia)
         for img in (w + lob - loa, hib - (w - loa)):
             try: prem = z3.Implies(rng, fa(w) == fb(img))
             except Undecided: continue
-            v, _ = _check(ctx, prem, pair_timeout_ms or PAIR_TIMEOUT_MS)
+            v, _ = _check(ctx, prem, pair_timeout_ms or PAIR_TIMEOUT_MS); npairs += 1
             if v == 'unsat': out.append(ca == cb); break
     return out
 
+
+def _goal_skolems(f):
+    out = {}; seen = set(); stack = [f]
+    while stack:
+        t = stack.pop()
+        if t.get_id() in seen: continue
+        seen.add(t.get_id())
+        if z3.is_quantifier(t): stack.append(t.body()); continue
+        if z3.is_const(t) and t.decl().kind() == z3.Z3_OP_UNINTERPRETED and z3.is_int(t) and '!sk' in t.decl().name(): out[t.decl().name()] = t
+        stack.extend(t.children())
+    return list(out.values())
+
+def _generalise(fact, ob):
+    """forall-introduction: a conjunct proved for goal skolems j (arbitrary constants) holds for all j, provided no hypothesis constrains
+    j -- the only hypotheses allowed to mention j are instances of spec definitions (valid at every index).  The generalised fact is
+    what later conjuncts need (z[d] is computed from the y[d] stored just before, at an index that is not the skolem)."""
+    sks = _goal_skolems(fact)
+    if not sks: return fact
+    for a in ob.assume:
+        if a.get_id() in ob.def_ids: continue
+        if any(_contains(a, sk) for sk in sks): return fact
+    vs = [z3.Int('g!%s' % sk.decl().name().replace('!', '_')) for sk in sks]
+    return z3.ForAll(vs, z3.substitute(fact, *zip(sks, vs)))
 
 def discharge(ob, reg, alg, timeout_ms=20000, extra=(), depth=1, seed=0, pair_timeout_ms=None):
     """returns (verdict, seconds, solver_info): verdict in unsat / sat / unknown"""
@@ -1278,5 +1332,5 @@ def discharge(ob, reg, alg, timeout_ms=20000, extra=(), depth=1, seed=0, pair_ti
             facts = sum_facts(ob2, reg, alg, depth, pair_timeout_ms)
             v, w = _check(base + ante + facts, g, timeout_ms, seed)
         if v != 'unsat': return v, time.time() - t, w
-        base.append(z3.Implies(z3.And(*ante), g) if ante else g)
+        base.append(_generalise(z3.Implies(z3.And(*ante), g) if ante else g, ob))
     return 'unsat', time.time() - t, ''
